@@ -173,20 +173,18 @@ func reference(nodes []nodeSpec, policy int) refInfo {
 	if ri.allUp {
 		// the set served: closed = every weighted node; force = weighted local nodes;
 		// prefer = weighted local nodes if there are any, else weighted remote nodes
-		useRemote := func(n nodeSpec) bool {
-			switch policy {
-			case backend.LocalSlaveReadForce:
-				return false
-			case backend.LocalSlaveReadPrefer:
-				return !ri.localServe
-			}
-			return true
-		}
 		g := 0
 		in := make([]bool, len(nodes))
 		for i, n := range nodes {
-			if n.W > 0 && (!n.Remote || useRemote(n)) && (n.Remote || policy != backend.LocalSlaveReadPrefer || ri.localServe) {
-				in[i] = true
+			switch policy {
+			case backend.LocalSlaveReadForce:
+				in[i] = n.W > 0 && !n.Remote
+			case backend.LocalSlaveReadPrefer:
+				in[i] = n.W > 0 && n.Remote != ri.localServe
+			default:
+				in[i] = n.W > 0
+			}
+			if in[i] {
 				g = gcd(g, n.W)
 			}
 		}
